@@ -11,6 +11,8 @@ Decides:
                      setVisibleDirections(ConnDirAll) on the same vertex whenever the restriction was applied, after the search
   PINS-FOLLOW-SHAPES every function that replaces an obstacle polygon / junction position or pre-positions for a queued move
                      contains, after the store, a loop over all m_connection_pins that updates each pin's position
+  PIN-UPDATE-SOURCE  pins are repositioned from the shape's own polygon only (never the buffered routing polygon)
+  PIN-REFRESH        updatePositionAndVisibility refreshes position, directions and visibility on every path
   PIN-POSITION       ShapeConnectionPin::position() symbolic over the shape's bounding box: proportional offsets give
                      min + t*(max-min) (edges moved inside by insideOffset), absolute offsets min + offset / max - inside
   PIN-DIRECTIONS     default visibility directions of a pin follow its attachment position (finite table)
@@ -273,6 +275,95 @@ def rule_pins_follow(chk, prog):
                   "(pins and attached connector ends would stay at the old place)")
 
 
+def rule_pin_update_source(chk, prog):
+    r = chk.rule("PIN-UPDATE-SOURCE", "every call pin->updatePosition(P) with a polygon P passes the obstacle's own polygon -- the member "
+                 "Obstacle::m_polygon that ShapeConnectionPin::position() reads through m_shape->polygon(), or the caller's polygon "
+                 "parameter that the router also hands to setNewPoly -- never a derived polygon (routing/buffered polygon, a local)", floor=2)
+    acc = prog.fn("Avoid::Obstacle::polygon")
+    rets = [norm(n["ch"][0]) for n in acc.nodes() if n.get("k") == "ReturnStmt" and n.get("ch")]
+    if rets != ["m_polygon"]:
+        raise AnalysisBroken("Obstacle::polygon() no longer returns m_polygon: %s" % rets)
+    k = 0
+    for f in prog.all_functions():
+        if f.tmpl == "pattern" or not f.file.endswith(".cpp") or "/libavoid/" not in f.file:
+            continue
+        for n in calls(f):
+            if n.get("cname") != "Avoid::ShapeConnectionPin::updatePosition":
+                continue
+            a = call_args(n)
+            if not a or "Polygon" not in strip(a[0]).get("t", ""):
+                continue
+            k += 1
+            r.count()
+            e = strip_casts(a[0])
+            ok = (e.get("k") == "MemberExpr" and e.get("ref") == "Avoid::Obstacle::m_polygon" and norm(e) == "m_polygon") or \
+                 (e.get("k") == "DeclRefExpr" and e.get("rk") == "ParmVar")
+            inst = "%s: updatePosition(%s)" % (f.q, norm(a[0]))
+            if ok:
+                r.ok(inst, f.loc(n))
+            else:
+                r.bad(inst, f.loc(n), "pins are repositioned from `%s`, which is not the shape's own polygon: routes would end where "
+                      "ShapeConnectionPin::position() does not put the pin" % norm(a[0]))
+    # the polygon parameter of moveAttachedConns is, at its call sites, the very polygon given to setNewPoly
+    mv = [(f, n) for f in prog.all_functions() for n in calls(f) if n.get("cname") == "Avoid::ShapeRef::moveAttachedConns"]
+    for f, n in mv:
+        arg = norm(call_args(n)[0])
+        decls = {d.get("did", d.get("id")): d for d in f.nodes() if d.get("k") == "VarDecl"}
+
+        def through_ref(e):
+            e = strip_casts(e)
+            d = decls.get(e.get("did")) if e.get("k") == "DeclRefExpr" else None
+            if d is not None and d.get("init") is not None and d.get("t", "").endswith("&"):
+                return norm(d["init"])
+            return norm(e)
+        sets = [through_ref(call_args(c)[0]) for c in calls(f) if c.get("cname") == "Avoid::Obstacle::setNewPoly"]
+        r.count()
+        if arg in sets:
+            r.ok("%s: moveAttachedConns(%s)" % (f.q, arg), f.loc(n), "same polygon as setNewPoly")
+        else:
+            r.bad("%s: moveAttachedConns(%s)" % (f.q, arg), f.loc(n), "pins are pre-positioned for `%s` but the shape is moved to %s" % (arg, sets))
+    if k < 2:
+        raise AnalysisBroken("only %d polygon updatePosition call sites found" % k)
+
+
+def rule_pin_refresh(chk, prog):
+    r = chk.rule("PIN-REFRESH", "ShapeConnectionPin::updatePositionAndVisibility (the only refresh after a shape transformation): every path to "
+                 "a normal exit resets the vertex to position(), stores visDirections = directions() and rebuilds visibility; "
+                 "updatePosition(P) resets the vertex to position(P) on every path", floor=4)
+    fn = prog.fn("Avoid::ShapeConnectionPin::updatePositionAndVisibility")
+    g = CFG(fn)
+    sal = single_assignment_locals(fn)
+    need = {
+        "vertex reset to position()": [n["id"] for n in calls(fn) if n.get("cname") == "Avoid::VertInf::Reset" and
+                                       norm(call_args(n)[-1], sal).replace("this.", "").startswith("position(")],
+        "visDirections = directions()": [node["id"] for lhs, node, op in writes(fn) if written_field(lhs)[0] == "Avoid::VertInf::visDirections"
+                                         and "directions()" in norm(node["ch"][1], sal)],
+        "updateVisibility()": [n["id"] for n in calls(fn) if n.get("cname") == "Avoid::ShapeConnectionPin::updateVisibility"],
+    }
+    for what, ids in need.items():
+        r.count()
+        if not ids:
+            r.bad("updatePositionAndVisibility: " + what, fn.where(), "missing: a transformed pin keeps its stale " + what.split(" ")[0])
+            continue
+        w = g.exit_reachable_avoiding(ids)
+        if w is not None:
+            r.bad("updatePositionAndVisibility: " + what, fn.where(), "skipped on %s: the pin's routing vertex keeps stale data while "
+                  "position()/directions() report the new one" % g.describe(w))
+        else:
+            r.ok("updatePositionAndVisibility: " + what, fn.where())
+    for f in prog.fns("Avoid::ShapeConnectionPin::updatePosition"):
+        g = CFG(f)
+        pn = f.params[0]["name"] if f.params else "?"
+        ids = [n["id"] for n in calls(f) if n.get("cname") == "Avoid::VertInf::Reset" and
+               norm(call_args(n)[-1]) in (pn, "position(%s)" % pn, "this.position(%s)" % pn)]
+        r.count()
+        w = g.exit_reachable_avoiding(ids) if ids else []
+        if w is not None:
+            r.bad("updatePosition(%s)" % (f.params[0]["t"] if f.params else ""), f.where(), "the vertex is not reset to the new position on every path")
+        else:
+            r.ok("updatePosition(%s)" % (f.params[0]["t"] if f.params else ""), f.where())
+
+
 def rule_pin_position(chk, prog):
     r = chk.rule("PIN-POSITION", "ShapeConnectionPin::position(newPoly), symbolic over the bounding box (x0,y0,x1,y1), offsets and insideOffset: "
                  "proportional: x = x0 + inside | x1 - inside | x0 + t*(x1-x0) for LEFT | RIGHT | t; absolute: x = x0 + inside | x1 - inside | "
@@ -372,5 +463,7 @@ def run(chk):
     rule_temp_vis(chk, prog)
     rule_checkpoint_dirs(chk, prog)
     rule_pins_follow(chk, prog)
+    rule_pin_update_source(chk, prog)
+    rule_pin_refresh(chk, prog)
     rule_pin_position(chk, prog)
     rule_pin_directions(chk, prog)
